@@ -46,6 +46,7 @@ func main() {
 		"the intro line is fixed in part (i); intro variants are exercised by the re-encodings and single-byte edits of part (ii)",
 		"readers deliver data in the patterns of mon.Schedules (no (0,nil) reads, no read errors: those belong to C12/C13)",
 		"the differential is one-directional: refage-well-formed => accepted; a larger accepted language is not a C07 violation while the round trip holds",
+		"long lines: stanza opening lines of 4096+-64, 8192+-8, 65536+-8, 100000 and 1000000 bytes only; body lines are at most 65 bytes in any accepted header, so only opening lines can exceed a buffer",
 		"generated headers: 0-6 stanzas (sweeps to 12), 0-5 arguments (sweep to 20) over all 94 VCHARs, bodies 0-200, 48k+-2 for k<=14, some up to 3000 bytes",
 	}
 	r.MinEvals, r.MinDistinct = int64(r.Pick(2_000_000, 20_000_000)), r.Pick(20_000, 200_000)
@@ -107,9 +108,11 @@ func main() {
 	runGenerated(o, r.Pick(15_000, 300_000))
 
 	lap("(iii) generated headers")
+	runLongLines(o)
+	lap("(iii-b) long opening lines")
 
 	// sanity: each part must have produced both verdicts
-	for _, p := range []string{"tokens", "mutation", "generated"} {
+	for _, p := range []string{"tokens", "mutation", "generated", "longline"} {
 		if r.Counter("accepted_"+p) == 0 {
 			r.Inconclusive("part %+q accepted no input", p)
 		}
